@@ -99,8 +99,7 @@ def check(ctx):
     ctx.need(len(sends) == 1 and len(gets) == 1, '_SetPointThread.run: send / queue get not found')
     # from the terminate edge no set-point may be sent any more
     term = [e for n in gr.nodes for e in n.succ if any(f.text in ('event == self.TERMINATE_EVENT', 'self.TERMINATE_EVENT == event') and f.pol for f in e.facts())]
-    ok = len(term) == 1 and gr.path_avoiding(term[0].src, [sends[0][0]], avoid_edges=[e for e in term[0].src.succ if e is not term[0]]) is None and \
-        len(rets) >= 1
+    ok = len(term) == 1 and gr.path_avoiding(term[0].src, [sends[0][0]], avoid_edges=[e for e in term[0].src.succ if e is not term[0]]) is None
     ctx.inst('R1', run, 'terminate-returns-before-sending', ok, 'after the terminate event no further set-point may be sent (run returns)')
     hl = P.method('land')
     hp = [(p, ev) for p, ev in seq_calls(hl) if fact_key('self._is_flying', True) in p.fact_keys()]
@@ -131,8 +130,8 @@ def check(ctx):
     bps, _ = paths_of_block(run, wl[0].body)
     nsend = set()
     for p in bps:
-        if p.outcome[0] == 'return':
-            continue
+        if p.outcome[0] in ('return', 'break'):
+            continue                                  # the iteration that ends the thread (a break out of this, the only loop, ends run as well)
         n = len(p.calls(lambda c: method_call(c, 'send_hover_setpoint')))
         u = [i for i, e in enumerate(p.events) if e.kind == 'call' and method_call(e.node, '_update_z_in_setpoint')]
         s = [i for i, e in enumerate(p.events) if e.kind == 'call' and method_call(e.node, 'send_hover_setpoint')]
@@ -331,7 +330,8 @@ VARIANTS = [
 
     M('R1', MC, "            self._thread.stop()\n            self._thread = None\n\n            self._cf.commander.send_stop_setpoint()", "            self._cf.commander.send_stop_setpoint()\n            self._thread.stop()\n            self._thread = None", 'thread stopped after stop set-point'),
     M('R1', MC, "            self._cf.commander.send_notify_setpoint_stop()\n", "", 'priority never released'),
-    M('R1', MC, "                if event == self.TERMINATE_EVENT:\n                    return\n", "                if event == self.TERMINATE_EVENT:\n                    break\n", 'terminate breaks to send'),
+    M('R1', MC, "                if event == self.TERMINATE_EVENT:\n                    return\n", "                if event == self.TERMINATE_EVENT:\n                    pass\n", 'terminate falls through to send'),
+    B(MC, "                if event == self.TERMINATE_EVENT:\n                    return\n", "                if event == self.TERMINATE_EVENT:\n                    break\n", 'terminate leaves the only loop (run ends as well)'),
     M('R1', PH, "            self._hl_commander.stop()\n            self._is_flying = False", "            self._is_flying = False", 'hl stop missing'),
     M('R2', MC, "    def __exit__(self, exc_type, exc_val, exc_tb):\n        self.land()", "    def __exit__(self, exc_type, exc_val, exc_tb):\n        if exc_type is None:\n            self.land()", 'no landing after an exception'),
     M('R3', MC, "            except Empty:\n                pass\n", "            except Empty:\n                continue\n", 'no periodic resend'),
